@@ -4,7 +4,10 @@ import CnbVerif.Gen.Tables
 Model for C11: a file system with **symlinks and permission modes**, the permission-fixing recursive removal
 `libcnb/src/util.rs remove_dir_recursively`, `libcnb/src/layer/shared.rs delete_layer`, and the three public
 operations that reach it (`BuildContext::uncached_layer`, `cached_layer` with a `DeleteLayer` decision, the trait API's
-`handle_layer` with `ExistingLayerStrategy::Recreate`).
+`handle_layer` with `ExistingLayerStrategy::Recreate`) — each with the outcome of the **buildpack's part** of the call
+(`Bp`): the deciding callback (`restored_layer_action` / `invalid_metadata_action`, `existing_layer_strategy` /
+`migrate_incompatible_metadata`) answers "delete" or returns `Err`; the trait API's `Layer::create` succeeds or returns
+`Err` — in the code's own order: read, decide, delete, `create_dir_all`, `create`, write.
 
 *Data.* The file system is the flat map `FS := path ↦ node` (`file mode bytes | dir mode | link target`), a path being the
 list of its components below the root of the world (the directory that holds the layers directory and whatever lies
@@ -115,6 +118,8 @@ def fset (fs : FS) (p : Path) (v : Node) : FS := (p, v) :: ferase fs p
 
 inductive Err
   | notFound | notDir | isDir | access | loop | notEmpty | exists | fuel | unsupported | parse
+  /-- not a system call's failure: the buildpack's callback returned `Err` -/
+  | buildpack
 deriving DecidableEq, Repr
 
 instance instDecEqExcept {ε α : Type} [DecidableEq ε] [DecidableEq α] : DecidableEq (Except ε α)
@@ -466,8 +471,17 @@ inductive Api
   | handle     -- trait API `handle_layer`, `ExistingLayerStrategy::Recreate` / `MetadataMigration::RecreateLayer`
 deriving DecidableEq, Repr
 
-/-- where an operation failed (the variant of `LayerError` reported) -/
-inductive Stage | read | delete | write
+/-- where an operation failed: the variant of `LayerError` reported (`read`, `delete`, `write`), or the buildpack's own
+error (`Error::BuildpackError`) and which callback returned it — the deciding one (`decide`: nothing was deleted yet),
+`Layer::create` for a layer that did not exist (`create`), `Layer::create` after the existing layer had been deleted
+(`recreate`) -/
+inductive Stage | read | delete | write | decide | create | recreate
+deriving DecidableEq, Repr
+
+/-- what the buildpack's part of the call does: every callback succeeds (and decides to delete) / `Layer::create`
+returns `Err` (trait API only; the struct API has no such callback) / the deciding callback returns `Err` (the struct
+API's `cached_layer` and the trait API; `uncached_layer` has no callback) -/
+inductive Bp | ok | createErr | decideErr
 deriving DecidableEq, Repr
 
 /-- outcome of `create_layer` -/
@@ -480,7 +494,7 @@ abbrev ReqRes := Except (Stage × Err) Bool × FS
 
 def tag (deleted : Bool) : CreateRes → ReqRes
   | (.ok _, s) => (.ok deleted, s)
-  | (.error e, s) => (.error e, s)
+  | (.error (st, e), s) => (.error (if deleted && decide (st = .create) then Stage.recreate else st, e), s)
 
 /-- The target layer's `<name>.toml` is recorded as a one-byte token naming the document (the TOML text itself is
 C01/C07/C08's subject): `B` is not a content-metadata document at all, anything else is one. -/
@@ -495,12 +509,18 @@ def freshToml : Api → Bytes
   | .cached => [67]
   | .handle => [82]
 
-/-- `create_layer` / `handle_create_layer`: `create_dir_all`, write `<name>.toml`; the trait API then replaces the SBOM
-files by the (empty) list of the create result -/
-def createLayer (root : Bool) (api : Api) (fs : FS) (n : Name) : CreateRes :=
+/-- does `Layer::create` run and return `Err`? (`handle_create_layer` calls it between `create_dir_all` and `write_layer`;
+the struct API's `create_layer` calls nothing of the buildpack's) -/
+def createFails (api : Api) (bp : Bp) : Bool := decide (api = .handle) && decide (bp = .createErr)
+
+/-- `create_layer` / `handle_create_layer`: `create_dir_all`; the trait API calls `Layer::create` here — when it returns
+`Err` the call ends with the new empty directory in place and nothing else written; write `<name>.toml`; the trait API
+then replaces the SBOM files by the (empty) list of the create result -/
+def createLayer (root : Bool) (api : Api) (bp : Bp) (fs : FS) (n : Name) : CreateRes :=
   match mkdirAll root 2 fs (layerPath n) with
   | .error e => (.error (.write, e), fs)
   | .ok fs1 =>
+    if createFails api bp then (.error (.create, .buildpack), fs1) else
     match writeFile root fs1 (tomlPath n) (freshToml api) with
     | .error e => (.error (.write, e), fs1)
     | .ok fs2 =>
@@ -512,16 +532,19 @@ def createLayer (root : Bool) (api : Api) (fs : FS) (n : Name) : CreateRes :=
         else (.error (.write, .notFound), fs2)
       else (.ok (), fs2)
 
-/-- `read_layer` with its two normalisations, the decision to delete (every decodable document), `delete_layer`,
-`create_layer` -/
-def request (root : Bool) (api : Api) (fs : FS) (n : Name) : ReqRes :=
+/-- does the deciding callback run and return `Err`? (`uncached_layer`'s two callbacks are the library's own) -/
+def decideFails (api : Api) (bp : Bp) : Bool := !decide (api = .uncached) && decide (bp = .decideErr)
+
+/-- `read_layer` with its two normalisations, the deciding callback (consulted for every decodable document: it returns
+`Err` — the call ends there, before anything is deleted — or decides to delete), `delete_layer`, `create_layer` -/
+def request (root : Bool) (api : Api) (bp : Bp) (fs : FS) (n : Name) : ReqRes :=
   let dirE := existsB root fs (layerPath n)
   let tomlE := existsB root fs (tomlPath n)
-  if !dirE && !tomlE then tag false (createLayer root api fs n)
+  if !dirE && !tomlE then tag false (createLayer root api bp fs n)
   else if !dirE then
     match unlink root fs (tomlPath n) with
     | .error e => (.error (.read, e), fs)
-    | .ok fs1 => tag false (createLayer root api fs1 n)
+    | .ok fs1 => tag false (createLayer root api bp fs1 n)
   else
     match (if tomlE then Except.ok fs else writeFile root fs (tomlPath n) emptyToml) with
     | .error e => (.error (.read, e), fs)
@@ -530,9 +553,10 @@ def request (root : Bool) (api : Api) (fs : FS) (n : Name) : ReqRes :=
       | .error e => (.error (.read, e), fs1)
       | .ok content =>
         if content = tomlGarbage then (.error (.read, .parse), fs1)
+        else if decideFails api bp then (.error (.decide, .buildpack), fs1)
         else
           match deleteLayer root fs1 n with
           | (.error e, fs2) => (.error (.delete, e), fs2)
-          | (.ok _, fs2) => tag true (createLayer root api fs2 n)
+          | (.ok _, fs2) => tag true (createLayer root api bp fs2 n)
 
 end CnbVerif.RmTree
